@@ -156,6 +156,7 @@ type c37Case struct {
 	// attribute requests
 	NotExpired bool `json:"not_expired"`
 	// observed
+	Replayed bool `json:"replayed"` // the same request bytes as an earlier approved case, new environment
 	Approved bool `json:"approved"`
 	Panicked bool `json:"panicked"`
 }
@@ -765,7 +766,7 @@ func (e *c37Env) genEACL(target cid.ID, ext bool) (*eaclFacts, []byte) {
 	return f, b
 }
 
-func (e *c37Env) runCase(op int) c37Case {
+func (e *c37Env) prepare(op int) (c37Case, func()) {
 	g := e.g
 	c := c37Case{Kind: "c37", Op: op, Cnr: -1, Owner: -1, Attrs: []string{}, IDOK: true}
 	c.Alphabet = g.p(15, 16)
@@ -959,6 +960,13 @@ func (e *c37Env) runCase(op int) c37Case {
 		c.Auth, req.SessionToken, req.InvocationScript, req.VerificationScript = e.genAuth(op, c.Owner, c.Cnr, eb)
 		run = func() { e.proc.VerifProcessPutEACL(req) }
 	}
+	return c, run
+}
+
+// execute runs a prepared request under the environment recorded in c
+func (e *c37Env) execute(c *c37Case, run func()) {
+	e.alphabet, e.epoch, e.now = c.Alphabet, uint64(c.Epoch), time.Unix(t0+int64(c.Now), 0)
+	e.proc.VerifSetFlags(c.Meta, c.AllowEC)
 	e.n3ok = c.Auth.N3OK
 	if c.Owner >= 0 {
 		e.n3acc = e.uids[c.Owner].ScriptHash()
@@ -966,6 +974,7 @@ func (e *c37Env) runCase(op int) c37Case {
 		e.n3acc = util.Uint160{}
 	}
 	e.approved = 0
+	c.Panicked = false
 	e.ch.take()
 	func() {
 		defer func() {
@@ -976,7 +985,6 @@ func (e *c37Env) runCase(op int) c37Case {
 		run()
 	}()
 	c.Approved = e.approved > 0
-	return c
 }
 
 // genAuthFor: witness of the optional eACL call inside createV2 (the new container's id is
@@ -999,9 +1007,43 @@ func c37Main() {
 		"v1_verbs": []int{int(v1Verb(opPut)), int(v1Verb(opDelete)), int(v1Verb(opSetEACL)), int(v1Verb(opSetAttr)), int(v1Verb(opRemoveAttr))},
 		"v2_verbs": []int{int(v2Verb(opPut)), int(v2Verb(opDelete)), int(v2Verb(opSetEACL)), int(v2Verb(opSetAttr)), int(v2Verb(opRemoveAttr))},
 		"role_system": int(eacl.RoleSystem)})
+	// Requests are processed by ONE processor instance over a small universe. Besides fresh
+	// requests, an approved request is sometimes presented again, byte for byte, after the
+	// environment moved on (epochs / chain time passed, alphabet membership lost, flags
+	// switched): a verdict remembered from the first time must not be reused.
+	var last *c37Case
+	var lastRun func()
 	for i := 0; i < n; i++ {
-		op := e.g.n(7)
-		_ = enc.Encode(e.runCase(op))
+		if last != nil && e.g.p(1, 4) {
+			c := *last
+			switch e.g.n(5) {
+			case 0:
+				c.Epoch += 1 + e.g.n(4)
+			case 1:
+				c.Now += 1 + e.g.n(30)
+			case 2:
+				c.Alphabet = false
+			case 3:
+				c.Meta, c.AllowEC = !c.Meta, !c.AllowEC
+			default:
+				c.Epoch += 20
+				c.Now += 5000
+			}
+			e.execute(&c, lastRun)
+			c.Replayed = true
+			_ = enc.Encode(c)
+			if !c.Approved {
+				last = nil
+			}
+			continue
+		}
+		c, run := e.prepare(e.g.n(7))
+		e.execute(&c, run)
+		_ = enc.Encode(c)
+		if c.Approved {
+			cc := c
+			last, lastRun = &cc, run
+		}
 	}
 }
 
